@@ -439,7 +439,8 @@ def case_ops(opname, family, n, ops, res, part, profile, deep):
                 raise
             return None, e, _tail(e)
 
-    # ---- construction
+    # ---- construction (the counters of the previous case are cleared before the budget is armed)
+    MON.reset()
     MON.limit_events = 64 * (n + 10) * 8
     b, exc, tb = fresh()
     MON.limit_events = None
